@@ -1052,6 +1052,11 @@ func (p *Program) funcTypeContract(t types.Type) *FuncContract {
 			return c
 		}
 	}
+	if p.libs != nil {
+		if c, ok := p.libs.Funcs["functype "+pkg.Name()+"."+n.Obj().Name()]; ok {
+			return c
+		}
+	}
 	return nil
 }
 
@@ -1726,8 +1731,26 @@ func (f *Frame) siteMapUpdate(x *ssa.MapUpdate, h, k, v Val) {
 	defer f.flagEvent("mapupdate:" + fieldPat)
 	// a map that is not read from a named field is addressed by its type, e.g. map[string]*ServiceAdvertisement
 	typePat := strings.ReplaceAll(types.TypeString(x.Map.Type(), func(p *types.Package) string { return "" }), " ", "")
+	// "<pattern>@n" selects the n-th update (in source order) of a map of that type inside this function
+	ordPat := ""
+	if fieldPat == "" {
+		n := 0
+		for _, b := range f.fn.Blocks {
+			for _, in := range b.Instrs {
+				if mu, ok := in.(*ssa.MapUpdate); ok && types.Identical(mu.Map.Type(), x.Map.Type()) && mu.Pos() <= x.Pos() {
+					if u, ok := mu.Map.(*ssa.UnOp); ok {
+						if _, isField := u.X.(*ssa.FieldAddr); isField {
+							continue
+						}
+					}
+					n++
+				}
+			}
+		}
+		ordPat = fmt.Sprintf("%s@%d", typePat, n)
+	}
 	for _, s := range f.rootContract().Sites {
-		if s.Kind != "mapupdate" || (s.Pattern != fieldPat && s.Pattern != typePat) {
+		if s.Kind != "mapupdate" || (s.Pattern != fieldPat && s.Pattern != typePat && s.Pattern != ordPat) {
 			continue
 		}
 		if s.Pattern == typePat && fieldPat != "" {
@@ -1736,6 +1759,7 @@ func (f *Frame) siteMapUpdate(x *ssa.MapUpdate, h, k, v Val) {
 		env := f.envAt(f.cur, nil)
 		env.vars["key"] = Bound{V: k, T: x.Key.Type()}
 		env.vars["value"] = Bound{V: v, T: x.Value.Type()}
+		env.vars["themap"] = Bound{V: h, T: x.Map.Type()}
 		env.vars["base"] = Bound{V: Val{baseTerm, "Int"}, T: types.NewPointer(baseT)}
 		t, err := env.evalBool(s.Expr)
 		if err != nil {
